@@ -13,7 +13,7 @@ CHECKS = {
     "C13": dict(
         text="Partial ('nothing invalid is emitted'): every packet emission in the deframer is dominated by the length, minimum-size and "
              "(checksum on) CRC-equality guards; over-long accumulations are abandoned; after a recognised closing flag the state is "
-             "Synced and restarts with no collected bits (a rejected frame does not disturb the next); frame-length arithmetic is guarded; the bytes pushed after the bit-fixing step flow from that step's result (what is emitted is what was validated); a whole-window consume walks the whole window. 'Every valid frame is recovered' is "
+             "Synced and restarts with no collected bits (a rejected frame does not disturb the next); frame-length arithmetic is guarded; the bytes pushed after the bit-fixing step flow from that step's result (what is emitted is what was validated); a whole-window consume walks the whole window; every bit append lies behind the size comparison. 'Every valid frame is recovered' is "
              "a round-trip value property and is not decided.",
         design="§4 C13", technique="guard-fact dominance on MIR + content-taint/guard analysis"),
     "C14": dict(
@@ -24,7 +24,7 @@ CHECKS = {
     "C15": dict(
         text="Partial, audited: explicit-flow content taint (plus limited implicit flow into accumulators) over everything reachable "
              "from Block::work and the parsers; every content-tainted panic edge (checked subtraction/narrow arithmetic, division, "
-             "explicit assert/panic, unwrap/expect, indexing/slice ops) must be discharged by a dominating guard, by a path-sensitive search over a counter field's None/0/>0 states, or be listed with a "
+             "explicit assert/panic, unwrap/expect, indexing/slice ops, str::split_at at a byte index) must be discharged by a dominating guard, by a path-sensitive search over a counter field's None/0/>0 states, or be listed with a "
              "reason in an exact audit table. 'Spins forever' is decided in its structural form only (no Again without possible progress, no already-satisfied wait without certain progress). Other non-termination, dependency panics and 64-bit counter overflow are not decided.",
         design="§4 C15", technique="interprocedural content-taint analysis + guard discharge on MIR, exact audit table"),
     "C03": dict(
@@ -39,7 +39,7 @@ CHECKS = {
         text="Partial: for derive-generated sync blocks chunk-independence holds by construction, checked on the generated MIR "
              "of every in-crate user and a generated family (lock-step iteration from 0, take(n), one process call per sample, "
              "no state written by work()). For hand-written blocks the bounded-copy rule and rate consistency (consume(a) with "
-             "produce(a/c) needs a multiple of c), written-before-committed, counted consume, moved-out state restored, advanced copies stored back, fills committed, no per-call limit/discard of state grown per sample, no bulk copy of a partially consumed window into carried state, output commitments are paid for by an input advance or a state change, output sized by an input window consumes from it, and what is written through slice() is committed. Other carried-state arithmetic of hand-written blocks is not decided.",
+             "produce(a/c) needs a multiple of c), written-before-committed, counted consume, moved-out state restored, advanced copies stored back, fills committed, no per-call limit/discard of state grown per sample, no bulk copy of a partially consumed window into carried state, output commitments are paid for by an input advance or a state change, output sized by an input window consumes from it, what is written through slice() is committed, and a window processed in frames commits whole frames only. Other carried-state arithmetic of hand-written blocks is not decided.",
         design="§4 C08", technique="structural rules on macro-generated MIR over a generated program family"),
     "C12": dict(
         text="Partial: the stream stores only tags of committed samples and consume(0) removes none (central contract), and on "
@@ -56,17 +56,17 @@ CHECKS = {
         text="Decides three of the four clauses statically: no stream window type occurs in any field, static, escaping "
              "closure or leak call (=> nothing is held after work()); no CFG path reaches `return Ok(Again)` without any "
              "possible stream or state effect; a WaitForStream verdict whose nearest controlling test is a plain "
-             "'window of self.G is short' names G and asks for exactly the tested amount; no wait on an output while consumed input is held uncommitted; a wait that is already satisfied on its path needs certain progress on that path (also in derive-generated work()); a wait answered on an effect-free path is supported by a test of the awaited stream; consume/produce counts are bounded by their own window by construction or guard (reported on affirmative evidence only; loop counters are left to the runtime guard C01.R1).",
+             "'window of self.G is short' names G and asks for exactly the tested amount; no wait on an output while consumed input is held uncommitted; a wait that is already satisfied on its path needs certain progress on that path (also in derive-generated work()); a wait answered on an effect-free path is supported by a test of the awaited stream; consume/produce counts are bounded by their own window by construction or guard (reported on affirmative evidence only); a counter used as index into a stream window is kept inside that window (its own length consulted, non-empty at the access, tested after every increment).",
         design="§4 C09", technique="type facts + effect-avoiding path search + guard/verdict agreement on MIR"),
     "C02": dict(
         text="Structural necessary conditions only: who-may-write on the stream's tag map (only commit adds, only consume "
-             "removes, the read window mutates nothing), commit stores a tag only behind tag.pos() < n and under a key reduced modulo the capacity, removal sits behind n != 0, the read window uses only stable sorts. The modular "
+             "removes, the read window mutates nothing), commit stores a tag only behind tag.pos() < n and under a key reduced modulo the capacity, removal sits behind n != 0, the read window uses only stable sorts, and read_buf takes the state lock exactly once (window bounds and tag list are one snapshot). The modular "
              "range arithmetic of removal/re-basing (incl. consume(0)) is a value property and is not decided.",
         design="§4 C02", technique="who-may-call rule + guard dominance on MIR"),
     "C16": dict(
         text="Structural necessary conditions: checked subtractions in the Repeat counter are discharged by dominating "
              "guards; every finite source tests done() before any produce and never produces after done()==true "
-             "(sibling agreement); marker tags are created only under progress==0; Infinite never reports done; a read never pulls more bytes than the output window takes; the end of a repetition is decided only on read()==0 or byte-counter==0; no EOF behind a test that depends on a possibly-empty output window; no read() into a possibly zero-length buffer; EOF on the nothing-left side of its controlling test; state re-initialised for a new repetition agrees with the constructors; no wrapping decrement of the counter. "
+             "(sibling agreement); marker tags are created only under progress==0; Infinite never reports done; a read never pulls more bytes than the output window takes; the end of a repetition is decided only on read()==0 or byte-counter==0; no EOF behind a test that depends on a possibly-empty output window; no read() into a possibly zero-length buffer; EOF on the nothing-left side of its controlling test; state re-initialised for a new repetition agrees with the constructors; a counted repetition is restarted before work() returns; no wrapping decrement of the counter. "
              "Emission counts for data larger than the buffer are values and are not decided.",
         design="§4 C16", technique="guard-fact dominance + must-pass path rules on MIR"),
     "C01": dict(
@@ -78,7 +78,7 @@ CHECKS = {
     "C17": dict(
         text="Abstract interpretation of the OpenOptions builder per `match mode` arm against the documented table "
              "(both sinks must agree), and must-pass analysis: stream consumption is acknowledged only behind the Ok "
-             "edges of write_all then flush on the same writer, and a whole-window consume serialises the whole window. Decides the property up to the trusted OS semantics.",
+             "edges of write_all then flush on the same writer, a whole-window consume serialises the whole window, and nothing in the sink calls set_len/seek on the file. Decides the property up to the trusted OS semantics.",
         design="§4 C17", technique="abstract interpretation of builder flags + must-pass/dominance on MIR"),
     "C18": dict(
         text="Who-may-call, typestate and ownership rules on MIR: mmap/munmap only inside Map; every successful mmap is "
@@ -89,18 +89,18 @@ CHECKS = {
         text="Static ordering/dominance analysis on MIR of the stream ends: the peer-liveness read precedes the final "
              "buffered-amount read on every path to an end-of-stream verdict (or happens under the still-held data "
              "lock); every non-false verdict is equivalent to / guarded by handle-count==1; all condvar waits are "
-             "timed with constant non-zero timeouts; every derive-generated eof() is the conjunction over all inputs (path-sensitive); the multithreaded runner acts on wait()'s verdict only; amounts behind verdicts derive from the fill counter. "
+             "timed with constant non-zero timeouts; every derive-generated eof() is the conjunction over all inputs (path-sensitive); the multithreaded runner acts on wait()'s verdict only; amounts behind verdicts derive from the fill counter; the writer-side verdict depends on the requested amount too. "
              "This decides the check-then-act ordering the property describes, for all schedules, not the latency.",
         design="§4 C04", technique="MIR path-ordering + dominance analysis (rustc_private driver + Python rules)"),
     "C05": dict(
         text="Static classification of every exit of the per-block thread loop of the multithreaded runner by "
              "flag-sensitive path search on MIR, plus spawn/join structure and lock-free waits. Necessary "
-             "conditions for termination with nothing dropped (incl. no block parked on its output while holding consumed input, no second live window on a stream end); does not decide schedule-independence of results.",
+             "conditions for termination with nothing dropped (incl. no block parked on its output while holding consumed input, no second live window on a stream end, no wait on a stream other than the one found short); does not decide schedule-independence of results.",
         design="§4 C05", technique="flag-sensitive CFG path search on MIR"),
     "C06": dict(
         text="Static path analysis of Graph::run (no Ok return in a pass with a live verdict; retirement discipline; a block is skipped only when it is finished) "
              "plus an assume/guarantee check of the runner's quiescence inference against the effect summary of every "
-             "Block::work body (known findings list the block/verdict pairs that break it).",
+             "Block::work body (known findings list the block/verdict pairs that break it); no carried state built from samples a call did not consume (result independent of the buffer size).",
         design="§4 C06", technique="flag-sensitive CFG path search + per-block effect summaries on MIR"),
     "C07": dict(
         text="Static error-discipline and cancellation analysis of both runners: no block error is unwrapped, Err of "
